@@ -70,16 +70,19 @@ FieldOK(ts, f) == FieldDefect(ts, f) = ""
 FieldDocumented(ts, f) == \A i \in 1..Len(ts) : TermDocumented(ts[i], f)
 FieldSet(ts, f) == UNION {TermSet(ts[i], f) : i \in 1..Len(ts)}
 
-(* Is the field "unrestricted" (a star) for the either-day rule?             *)
+(* Is the field "unrestricted" (a star) for the either-day rule?  Only a     *)
+(* literal star or question mark makes it so (documented rule: if both day   *)
+(* fields are restricted, i.e. not a star, either may match): a field        *)
+(* written with numbers or                                                   *)
+(* names is restricted even when it happens to allow every value (1-31,      *)
+(* sun-sat, 1/1, 1-15,16-31).                                                *)
 (*   "yes"    the field is exactly * or ?                                    *)
-(*   "no"     no star anywhere and some value is excluded                    *)
-(*   "either" the documentation does not settle it: a star inside a list,    *)
-(*            "*/1", or a star-free field that still allows every value      *)
-(*            (1-31); both readings are accepted.                            *)
+(*   "no"     no star or question-mark term anywhere                         *)
+(*   "either" the documentation does not settle it: a star inside a list, or *)
+(*            "*/1"; both readings are accepted.                             *)
 Star3(ts, f) ==
   IF Len(ts) = 1 /\ ts[1].k \in {"star", "qmark"} THEN "yes"
-  ELSE IF (\A i \in 1..Len(ts) : ts[i].k \notin {"star", "qmark"} /\ ~(ts[i].k = "starstep" /\ ts[i].s.n = 1))
-          /\ FieldSet(ts, f) # Lo[f]..Hi[f] THEN "no"
+  ELSE IF \A i \in 1..Len(ts) : ts[i].k \notin {"star", "qmark"} /\ ~(ts[i].k = "starstep" /\ ts[i].s.n = 1) THEN "no"
   ELSE "either"
 
 (* ---- parser options: which places an expression has ---- *)
